@@ -13,7 +13,7 @@ import (
 	"strings"
 
 	"verifharness/internal/proto"
-	_ "verifharness/suites"
+	
 )
 
 func main() {
